@@ -43,11 +43,16 @@ m = {
  "notes": "Exit codes: 0 held within the stated bounds (KNOWN-FINDING lines allowed), 1 replay-confirmed violation, 2 inconclusive (unknown/timeout/unwinding/unsupported/vacuous/encoding mismatch) — never reported as success. Known findings: known_findings.json. Mutation self-test: ./bin/gosym selftest.",
 }
 checks["C09"] = ("reduced claim, see level text", "§5/C09")
+# Properties whose thorough tier (./check Cxx thorough) has been run to the end
+# on the unchanged tree with exit 0 ("register only bounds run clean"). For the
+# others the registered thorough command is the quick tier, whose bounds are
+# the ones stated in the evidence file.
+thorough_clean = set(json.load(open("/verif/thorough_clean.json")))
 for pid, (text, ref) in sorted(checks.items()):
     m["checks"].append({
      "property_id": pid,
      "quick_cmd": "./check %s quick" % pid,
-     "thorough_cmd": "./check %s thorough" % pid,
+     "thorough_cmd": "./check %s %s" % (pid, "thorough" if pid in thorough_clean else "quick"),
      "evidence_file": "evidence/%s.json" % pid,
      "replay_cmd_template": "./check %s --replay {path}" % pid,
      "engine": "gosym",
